@@ -26,6 +26,16 @@ EDITS = {
     'R3-width-any-digits': [("(?P<width> [1-9][0-9]* )", "(?P<width> [0-9]+ )")],
     'R4-length-h-or-hh': [("hh? | ll? | [qjzZt] | L", "h | hh | l | ll | [qjzZt] | L")],
     'R5-plus-as-star': [("(?P<literal> [^%]+ )", "(?P<literal> [^%][^%]* )"), ("(?P<varwidth_index> [0-9]+[$] )?", "(?P<varwidth_index> [0-9][0-9]*[$] )?")],
+    # ---- one-line semantic edits of the decision code of Conversion.__init__
+    'D1-width-ge-INT_MAX': [("            if width > INT_MAX:", "            if width >= INT_MAX:")],
+    'D2-precision-not-for-strings': [("if conversion in i.int_cvt + i.float_cvt + i.str_cvt:", "if conversion in i.int_cvt + i.float_cvt:")],
+    'D3-zero-flag-ints-only': [("                if conversion not in i.int_cvt + i.float_cvt:", "                if conversion not in i.int_cvt:")],
+    'D4-index-forbidden-on-m': [("                if conversion == '%':\n                    raise ForbiddenArgumentIndex(s)", "                if conversion == 'm':\n                    raise ForbiddenArgumentIndex(s)")],
+    'D5-varprec-not-registered-when-indexed': [("            try:\n                parent.add_argument(varprec_index, VariablePrecision(self))", "            try:\n                parent.add_argument(varprec_index, VariableWidth(self))")],
+    'D6-redundant-warn-raises': [("            if count != 1:\n                parent.warn(RedundantFlag, s, flag, flag)", "            if count != 1:\n                raise FlagError(s, flag)")],
+    # ---- behaviour-preserving edits of the decision code
+    'P1-rename-locals': [("varwidth_index", "vw_index"), ("varprec_index", "vp_index")],
+    'P2-membership-string-reordered': [("            if conversion in '%n':", "            if conversion in 'n%':")],
 }
 
 def sh(cmd, **kw):
@@ -38,9 +48,10 @@ def run(name):
     text = open(path, encoding='utf-8').read()
     for old, new in EDITS[name]:
         new = new.replace('\\\\', '\\')
+        old = old.replace('\\n', '\n'); new = new.replace('\\n', '\n')
         if text.count(old) < 1:
             return {'name': name, 'error': f'edit does not apply: {old!r}'}
-        text = text.replace(old, new, 1)
+        text = text.replace(old, new, 1 if not name.startswith('P1') else -1)
     open(path, 'w', encoding='utf-8').write(text)
     t0 = time.time()
     tests = sh('/venv/bin/python -m pytest -q -p no:cacheprovider -x tests/test_strformat_c.py 2>&1 | tail -1', cwd=SCRATCH).stdout.strip()
@@ -67,6 +78,7 @@ def main():
         results.append(r)
     shutil.rmtree(SCRATCH, ignore_errors=True)
     sh('/venv/bin/python tools/translate/cfmt2lean.py /repo', cwd=HERE)
+    sh('/venv/bin/python tools/translate/cfmtconv2lean.py /repo', cwd=HERE)
     sh('git checkout -- evidence/C11.json', cwd=HERE)
     sh('git clean -fdq replays/C11', cwd=HERE)
 
